@@ -69,8 +69,7 @@ func (c *Ctx) fieldOfIface(n *types.Named, role, iface string) *types.Var {
 	if st == nil {
 		return nil
 	}
-	for i := 0; i < st.NumFields(); i++ {
-		f := st.Field(i)
+	for _, f := range flatFields(n) {
 		if nn := derefNamed(f.Type()); nn != nil && nn.Obj().Name() == iface && c.roleOf(nn.Obj().Pkg()) == role {
 			return f
 		}
